@@ -71,6 +71,8 @@ type Exec struct {
 	ghostCells   map[*Cell]*Cell
 	wireUnit     *ssa.Function
 	kernelMode   bool
+	initCapture  map[*ssa.Global]*Term // set while a package initialiser is evaluated
+	flatWire     bool // byte-length mode: nested codecs are inlined instead of boxed
 	encCells     map[*Cell]bool // Encoder cells with a ghost stream
 	wireDeps     map[string]bool
 	encLog       map[*Cell][]emission
@@ -523,6 +525,11 @@ func (ex *Exec) globalPtr(g *ssa.Global) Val {
 	defer func() { recover() }()
 	if c := ex.P.specifierConst(g); c != nil {
 		return ValPtr{Root: c, Elem: elem}
+	}
+	if ex.initCapture == nil && isInteger(elem) {
+		if c := ex.P.initIntConst(g); c != nil {
+			return ValPtr{Root: c, Elem: elem}
+		}
 	}
 	if isErrorType(elem) {
 		// package-level error variables (io.EOF, io.ErrUnexpectedEOF, ErrOverflow, ...): non-nil
@@ -1128,13 +1135,35 @@ func (fr *Frame) rpo() []*ssa.BasicBlock {
 	seen := map[*ssa.BasicBlock]bool{}
 	var post []*ssa.BasicBlock
 	var dfs func(b *ssa.BasicBlock)
+	// successors that leave the innermost loop of b are visited first, so that in the reverse
+	// post-order a loop's body comes before the code after the loop (the emission log of an
+	// encoder must contain a loop's summary before anything written after the loop is folded)
+	inner := func(b *ssa.BasicBlock) *Loop {
+		var best *Loop
+		for _, lp := range fr.loops {
+			if lp.Blocks[b] && (best == nil || len(lp.Blocks) < len(best.Blocks)) {
+				best = lp
+			}
+		}
+		return best
+	}
 	dfs = func(b *ssa.BasicBlock) {
 		seen[b] = true
-		for _, s := range b.Succs {
-			if fr.backEdg[[2]int{b.Index, s.Index}] || seen[s] {
-				continue
+		lp := inner(b)
+		for pass := 0; pass < 2; pass++ {
+			for _, s := range b.Succs {
+				leaves := lp != nil && !lp.Blocks[s]
+				if (pass == 0) != leaves && lp != nil {
+					continue
+				}
+				if lp == nil && pass == 1 {
+					continue
+				}
+				if fr.backEdg[[2]int{b.Index, s.Index}] || seen[s] {
+					continue
+				}
+				dfs(s)
 			}
-			dfs(s)
 		}
 		post = append(post, b)
 	}
@@ -1364,6 +1393,7 @@ func (p *Program) specifierConst(g *ssa.Global) *Term {
 				}
 			}
 		}
+		p.storeCount = stores
 		for gg, n := range stores {
 			if n == 1 && okv[gg] && len(val[gg]) <= 16 {
 				arr := ConstArray(ArraySort(SInt, SInt), IntC(0))
@@ -1375,4 +1405,40 @@ func (p *Program) specifierConst(g *ssa.Global) *Term {
 		}
 	}
 	return p.specConsts[g]
+}
+
+// initIntConst: the value of an integer package-level variable that is assigned exactly once in
+// the whole program, in its package initialiser, with a value the symbolic executor evaluates to
+// a constant (e.g. rhp/v4 sizeofHash = sizeof(types.Hash256{})).
+func (p *Program) initIntConst(g *ssa.Global) *Term {
+	p.specifierConst(g) // fills p.storeCount
+	if p.storeCount[g] != 1 || g.Pkg == nil {
+		return nil
+	}
+	if p.initVals == nil {
+		p.initVals = map[*ssa.Package]map[*ssa.Global]*Term{}
+	}
+	vals, done := p.initVals[g.Pkg]
+	if !done {
+		vals = map[*ssa.Global]*Term{}
+		p.initVals[g.Pkg] = vals
+		initFn := g.Pkg.Func("init")
+		if initFn != nil && initFn.Blocks != nil {
+			func() {
+				defer func() {
+					if r := recover(); r != nil && os.Getenv("GOVC_WIREDEBUG") != "" {
+						fmt.Fprintf(os.Stderr, "INIT %s: panic %v\n", g.Pkg.Pkg.Path(), r)
+					}
+				}()
+				ex := &Exec{P: p, Unit: "init:" + g.Pkg.Pkg.Path(), Inlined: map[string]bool{}, Used: map[string]bool{}, Trusted: map[string]bool{}, initCapture: vals, MayPanic: true, flatWire: true}
+				fr := &Frame{ex: ex, fn: initFn, prefix: "init/", cells: map[ssa.Value]*Cell{}}
+				ex.stack = []*ssa.Function{initFn}
+				fr.run(nil, nil, Mem{}, TTrue)
+			}()
+		}
+	}
+	if os.Getenv("GOVC_WIREDEBUG") != "" {
+		fmt.Fprintf(os.Stderr, "INITCONST %s = %v (stores %d, known %d)\n", g.Name(), vals[g], p.storeCount[g], len(vals))
+	}
+	return vals[g]
 }
